@@ -313,18 +313,21 @@ Section Agreement.
     let s' := run [RekeySend k; RekeyRecv q; ReplyRecv] s in
     settled s' /\
     c_share (cl s') = fill_shared (c_share (cl s)) (dh k (pub (s_priv (sv s)))) /\
+    s_share (sv s') = fill_shared (s_share (sv s)) (dh (s_priv (sv s)) (pub k)) /\
     c_seen s' = deliver q (c_seen s).        (* the reply written under the copy of the old key is readable *)
   Proof.
-    intros [[cp cpb cs cn] [sr sp ss] up dn w cseen sseen] k q S s'.
-    destruct S as [W [U [D [R [N [A P]]]]]]. cbn in *. subst w up dn sr cn ss cpb.
-    split.
-    - apply inv_settled.
-      + apply inv_run; [reflexivity|]. apply settled_inv. unfold settled. cbn. repeat split.
-      + subst s'. cbn. unfold srv_handle. cbn. reflexivity.
-      + subst s'. cbn. unfold srv_handle. cbn. rewrite zlist_eqb_refl. reflexivity.
-    - subst s'. cbn. unfold srv_handle. cbn. rewrite zlist_eqb_refl. cbn.
-      Local Transparent xor_op.
-      rewrite xor_involution. split; reflexivity.
+    intros [[cp cpb cs cn] [sr sp ss] up dn w cseen sseen] k q S.
+    destruct S as [W [U [D [R [N [A P]]]]]].
+    cbn [cl sv upw dnw waiting c_next c_share c_pub c_priv s_reg s_priv s_share] in *.
+    subst w up dn sr cn ss cpb.
+    match goal with |- context [run ?h ?s0] => set (s' := run h s0) end.
+    assert (E : s' = mkSt (mkC k (pub sp) (fill_shared cs (dh k (pub sp))) None)
+                          (mkS true sp (fill_shared cs (dh sp (pub k)))) None None false
+                          (deliver (xor_op (xor_op q cs) cs) cseen) sseen).
+    { subst s'. unfold run. cbn [fold_left]. unfold step at 3. cbn.
+      unfold srv_handle. cbn. rewrite zlist_eqb_refl. cbn. unfold key_check_sync. cbn. reflexivity. }
+    rewrite E. cbn. rewrite xor_involution. ands; try reflexivity.
+    unfold settled. cbn. ands; try reflexivity. rewrite dh_comm. reflexivity.
   Qed.
 
   (* a failed write of the announcement leaves both ends exactly where they were *)
